@@ -158,6 +158,7 @@ def step_obligations(pid, tier, seed, check, mutating_only=False):
     obs += failed_history_obligations(pid)
     if pid == 'C01':
         obs += leaf_ir_obligations(pid, tier, 'get') + leaf_ir_obligations(pid, tier, 'set')
+        obs += tree_ir_obligations(pid, tier, ['contents'], sets=True)
         # tree-level lookup of the native families from IR, on catalogue templates (and their stale-separator variants)
         c5, _ = cat('OO', 'c', 'BTree', 5, 2, 2)
         tpls = [s_ for s_ in shapes.stratify(c5, 2, 2) if s_[0] != 'E' and shapes.n_ranks(s_) <= (4 if tier == 'quick' else 5)]
@@ -192,6 +193,8 @@ def sound_obligations(pid, tier, seed):
                     r['obligations'].append(dict(id='%s/native/%s/%s/%s/n%d' % (pid, fam, impl, kind, n0), mod='h_repr', fn='native', nk=0,
                                                  args=[('e', 'int'), ('p', 'int')], pre=['0 <= e < %d' % ne, '0 <= p < %d' % npal],
                                                  params=dict(family=fam, kind=kind, impl=impl, n0=n0), timeout=t))
+    r['obligations'] += tree_ir_obligations(pid, tier, ['sound'], fams=['II', 'LL'] if tier == 'quick' else ['II', 'UU', 'LL', 'QQ'], sets=True)
+    r['bounds']['ir_tree'] = '_BTree_set from IR on the stratified (2,2) catalogue core + stale-separator variants + (3,2) shapes, fully symbolic words'
     r['bounds']['native_families'] = 'II OI IF LL: every writing entry point x a palette of %d representable / unrepresentable arguments, from 0 and 3 entries' % npal
     return r
 
@@ -567,6 +570,7 @@ def commit_obligations(pid, tier, seed):
                                         args=args + [('y', 'int'), ('op2', 'int'), ('cut2', 'int')],
                                         pre=pre + ['0 <= op2 < %d' % nops2, '0 <= cut2 < 2'], params=P2, timeout=t))
     obs += leaf_ir_obligations(pid, tier, 'notify')
+    obs += tree_ir_obligations(pid, tier, ['notify'], fams=['II', 'QQ'] if tier == 'quick' else ['II', 'UU', 'LL', 'QQ'], sets=True)
     bounds.update(per_condition_timeout_s=t, transactions='one operation + commit|abort; second operation + commit|abort on shapes with <= 4 (quick) / 5 keys')
     return {'obligations': obs, 'bounds': bounds}
 
@@ -609,6 +613,7 @@ def evict_obligations(pid, tier, seed):
                                 args=[('op', 'int'), ('b', 'int'), ('ghost', 'bool')], pre=['0 <= op < 10', '0 <= b < 7'],
                                 params=dict(family=fam, kind=kind, n=n), timeout=t))
     obs += leaf_ir_obligations(pid, tier, 'pins')
+    obs += tree_ir_obligations(pid, tier, ['pins'], fams=['UU', 'LL'] if tier == 'quick' else ['II', 'UU', 'LL', 'QQ'])
     bounds.update(per_condition_timeout_s=t, eviction_point='the e-th key comparison of the operation sweeps the whole cache (e solver-chosen, '
                   '1..40; beyond the last comparison = no sweep inside); before the operation all nodes are ghosts or all active (solver-chosen)')
     return {'obligations': obs, 'bounds': bounds}
@@ -756,7 +761,9 @@ def ref_obligations(pid, tier, seed):
                 N = max(k for _, k in hist) + 1
                 obs.append(dict(id=base + '/grown', mod='h_ref', fn='ref_step', nk=N, args=args, pre=['0 <= op < %d' % h_ref.GROUPS[g]],
                                 params=dict(P, prov='grown', hist=hist), timeout=t))
-    bounds.update(per_condition_timeout_s=t)
+    # memory bounds and reference accounting of the native-key families, decided on the IR (engine E2)
+    obs += tree_ir_obligations(pid, tier, ['refs'], fams=['II', 'QQ'] if quick else ['II', 'UU', 'LL', 'QQ'], sets=True)
+    bounds.update(per_condition_timeout_s=t, ir_tree='_BTree_set from IR on the stratified (2,2) catalogue core + stale-separator variants + (3,2) shapes')
     return {'obligations': obs, 'bounds': bounds}
 
 
@@ -1042,6 +1049,82 @@ def leaf_ir_obligations(pid, tier, what):
     return obs
 
 
+def tree_ir_obligations(pid, tier, focus, fams=None, sets=False):
+    """engine E2 at tree level: _BTree_set of the native-key families from IR, one call from every stratified catalogue
+    shape (plus stale-separator variants, leaves with spare capacity, never-stored trees)"""
+    obs = []
+    quick = tier == 'quick'
+    fams = fams or (['II', 'UU', 'LL', 'QQ'] if quick else ['II', 'UU', 'LL', 'QQ', 'IU', 'LQ'])
+    c5, _ = cat('OO', 'c', 'BTree', 5, 2, 2)
+    c6, _ = cat('OO', 'c', 'BTree', 6, 2, 2)
+    base = list(shapes.stratify(c5, 2, 2))
+    base += [s_ for s_ in shapes.stratify_large(c6, 2, 2) if s_ not in base]
+    # the first family runs the COMPLETE N=5 catalogue plus every four-level shape of the N=6 catalogue with <= 4 keys
+    # (thorough: the complete N=6 catalogue); the others the stratified core
+    if quick:
+        big = sorted(c5, key=repr) + sorted((s_ for s_ in c6 if shapes.depth(s_) == 4 and shapes.n_ranks(s_) <= 4 and s_ not in c5), key=repr)
+    else:
+        big = sorted(c6, key=repr)
+    stale = [v for v in (shapes.stale_variant(s_) for s_ in base) if v is not None and shapes.n_ranks(v) <= (7 if quick else 11)]
+    c32, _ = cat('OO', 'c', 'BTree', 5, 3, 2)
+    l3 = [s_ for s_ in shapes.stratify(c32, 3, 2) if s_[0] == 'T'][:(4 if quick else 12)]
+    plan = [(tp, 2, 2, 0, True, 'big') for tp in big if tp not in base]
+    plan += [(tp, 2, 2, 0, True, '') for tp in base] + [(tp, 2, 2, 0, True, 'v') for tp in stale] + [(tp, 3, 2, 0, True, 'v') for tp in l3]
+    # grown trees have spare capacity in their vectors; never-stored trees have no oids
+    plan += [(tp, 2, 2, 1, True, 'v') for tp in base if shapes.n_ranks(tp) <= (3 if quick else 5)]
+    plan += [(tp, 2, 2, 0, False, 'v') for tp in base if shapes.n_ranks(tp) <= (3 if quick else 5)]
+    seen = set()
+    for fam in fams:
+        for tp, L, I, spare, stored, cls in plan:
+            # the structural variants (slack, never stored, node size 3, keys-only trees) do not depend on the key type:
+            # first (32-bit) and last (64-bit) family only
+            if cls == 'v' and fam not in (fams[0], fams[-1]):
+                continue
+            if cls == 'big' and fam != fams[0]:
+                continue
+            for is_set in ((False, True) if sets else (False,)):
+                if is_set and (cls != '' or fam not in (fams[0], fams[-1])):
+                    continue
+                mm = shapes.n_ranks(tp)
+                for op in ('set', 'insert', 'delete'):
+                    if is_set and op == 'insert':
+                        continue
+                    if cls == 'big' and op == 'insert':
+                        continue
+                    oid = '%s/ir/%s/tree_set/%s%s/%s/%d%d%s%s' % (pid, fam, 'set-' if is_set else '', sid(tp), op, L, I,
+                                                                  '/spare' if spare else '', '' if stored else '/unstored')
+                    if oid in seen:
+                        continue
+                    seen.add(oid)
+                    obs.append(dict(id=oid, engine='llsym', mod='h_kernel', fn='tree_set_native', nk=0,
+                                    args=[('n', 'int'), ('v', 'int')] + [('k%d' % i, 'int') for i in range(mm)] + [('w%d' % i, 'int') for i in range(mm)],
+                                    params=dict(family=fam, kernel='tree_set', tpl=tp, op=op, L=L, I=I, spare=spare, stored=stored,
+                                                is_set=is_set, focus=focus),
+                                    timeout=300 if quick else 900))
+    return obs
+
+
+IR_TREE_TEXT = (' Engine E2 at tree level: _BTree_set (assign / insert-if-absent / delete) of the native-key families, interpreted from the '
+                'clang IR of the real family source together with everything it calls (BTree_grow, bucket_split, BTree_split, BTree_split_root, '
+                '_bucket_set, Bucket_grow, Bucket_deleteNextBucket, BTree_deleteNextBucket, BTree_lastBucket, _BTree_clear), on fake multi-level '
+                'trees built from the stratified catalogue templates (and stale-separator variants, node size (3,2), vectors with spare '
+                'capacity, never-stored trees) whose keys, values and argument are fully symbolic machine words: on every feasible path z3 '
+                'shows ')
+IR_TREE_FUNCS = ('engine E2 at tree level (LLVM IR of the native-key family sources): _BTree_set, BTree_grow, bucket_split, BTree_split, '
+                 'BTree_split_root, _bucket_set, Bucket_grow, Bucket_deleteNextBucket, BTree_deleteNextBucket, BTree_lastBucket, _BTree_clear, '
+                 '_max_internal_size, _max_leaf_size, BTree_Malloc, BTree_Realloc, Py_XINCREF, Py_TYPE, PyType_HasFeature')
+IR_TREE_WHAT = {
+    'contents': 'the leaf chain holds exactly the sorted-map result, the return code and the error indicator are as documented',
+    'sound': 'the resulting tree is sound (separator ranges, strictly ascending chain == leaves by descent, firstbucket pointers, no empty '
+             'node, node sizes within max_leaf_size / max_internal_size, vectors are live blocks of the recorded size)',
+    'notify': 'every node whose serialised state differs from its pre-state was announced through the persistence changed() hook (the root '
+              'for an embedded oid-less leaf)',
+    'pins': 'every node is unpinned at return',
+    'refs': 'every node\'s reference count equals the number of references the structure holds to it, nodes that left the tree are '
+            'released exactly once, no access touches freed or foreign memory, no assert is reachable',
+}
+
+
 IR_LEAF_TEXT = (' Engine E2 (clang LLVM IR of the real family source + z3 bit-vectors): the compiled leaf kernels of the native-key families '
                 '(int, unsigned, long long, unsigned long long keys) run on a leaf of n symbolic machine-word keys in strictly ascending family '
                 'order, symbolic values and a symbolic argument word: ')
@@ -1072,8 +1155,8 @@ PROPS = {
                     'entries changed, KeyError for deleting an absent key, sets the change flag and notifies persistence iff it modified the leaf; '
                     '_BTree_get on fake multi-level trees built from catalogue templates (interior-node binary search BTREE_SEARCH over native '
                     'separators, incl. separators that are not stored keys, descent, leaf search): a key is found iff a leaf stores it, with its '
-                    'value; every node is unpinned at return.',
-        functions=['BTrees._base.Tree/TreeSet/Bucket/Set public methods', '_OOBTree.so: _BTree_set, _BTree_get, BTree_grow, '
+                    'value; every node is unpinned at return.' + IR_TREE_TEXT + IR_TREE_WHAT['contents'] + '.',
+        functions=[IR_TREE_FUNCS, 'BTrees._base.Tree/TreeSet/Bucket/Set public methods', '_OOBTree.so: _BTree_set, _BTree_get, BTree_grow, '
                    'BTree_split, BTree_split_root, BTree_deleteNextBucket, _bucket_set, _bucket_get, bucket_split, '
                    'Bucket_grow, set_* / TreeSet_* in-place operators, BTree_clear, update',
                    'engine E2 (LLVM IR of _IIBTree.c/_UUBTree.c/_LLBTree.c/_QQBTree.c): _bucket_get, _bucket_set, Bucket_grow, BTree_Realloc, '
@@ -1082,12 +1165,13 @@ PROPS = {
     ),
     'C03': dict(
         families=['OO', 'II', 'OI', 'IF', 'LL'],
+        families_thorough=['OO', 'II', 'OI', 'IF', 'LL', 'UU', 'QQ'],
         gen=lambda tier, seed: sound_obligations('C03', tier, seed),
         explanation='Induction step for structural soundness: from every catalogue shape (sound by the independent walker) one '
                     'symbolic mutating public call is executed on the real code; afterwards _check(), BTrees.check.check() '
                     'and an independent walker (leaf chain == leaves by descent, strict ascending order, separator ranges, '
-                    'uniform child kinds, no empty node, node size limits) must all accept, on every path.',
-        functions=['_OOBTree.so: _BTree_set, BTree_grow, BTree_split, BTree_split_root, _BTree_clear, bucket_split, '
+                    'uniform child kinds, no empty node, node size limits) must all accept, on every path.' + IR_TREE_TEXT + IR_TREE_WHAT['sound'] + '.',
+        functions=[IR_TREE_FUNCS, '_OOBTree.so: _BTree_set, BTree_grow, BTree_split, BTree_split_root, _BTree_clear, bucket_split, '
                    'BTree_deleteNextBucket, BTree_check_inner', 'BTrees._base._Tree._set/_del/_grow/_split/_split_root/_check',
                    'BTrees.check.Checker',
                    '_IIBTree/_OIBTree/_IFBTree/_LLBTree.so: _BTree_set / _bucket_set / update / constructor / setdefault with '
@@ -1216,8 +1300,8 @@ PROPS = {
                     'checkers and the walker accept; the writer sees the same. After an abort the writer sees the last committed '
                     'contents in a sound tree. A missing change notification on any path therefore shows as a stale record.' + IR_LEAF_TEXT +
                     '_bucket_set calls the persistence API\'s changed() and sets *changed exactly when it modified the leaf (a replace by an '
-                    'equal value, an insert-if-absent of a present key and a failed delete do neither).',
-        functions=['_OOBTree.so: PER_CHANGED sites of _bucket_set, bucket_split, Bucket_deleteNextBucket, _BTree_set (changed accumulator), '
+                    'equal value, an insert-if-absent of a present key and a failed delete do neither).' + IR_TREE_TEXT + IR_TREE_WHAT['notify'] + '.',
+        functions=[IR_TREE_FUNCS, '_OOBTree.so: PER_CHANGED sites of _bucket_set, bucket_split, Bucket_deleteNextBucket, _BTree_set (changed accumulator), '
                    'BTree_split, BTree_grow, BTree_getstate/_BTree_setstate, bucket_getstate/_bucket_setstate, _p_deactivate', 'BTrees._base: '
                    '_Tree._set/_del/_grow/_split (_p_changed), Bucket._set/_del, __getstate__/__setstate__'],
         assumptions=COMMON_ASSUME + ['harness/minidb.py models the data-manager contract of persistent/ZODB (trusted; ZODB itself is '
@@ -1234,8 +1318,8 @@ PROPS = {
                     'cache is in the sticky state; result, exception class and contents equal the un-cached model; after evicting '
                     'everything again the tree reads the same; after commit a fresh reader sees the same.' + IR_LEAF_TEXT +
                     'on the paths where the argument cannot be converted (integer far outside the key range) _bucket_get and '
-                    'Bucket_findRangeEnd return with the leaf\'s persistence state exactly as at entry (PER_USE matched by PER_UNUSE).',
-        functions=['_OOBTree.so: PER_USE/PER_UNUSE/PER_ALLOW_DEACTIVATION bracketing in _BTree_get, _BTree_set, BTree_findRangeEnd, '
+                    'Bucket_findRangeEnd return with the leaf\'s persistence state exactly as at entry (PER_USE matched by PER_UNUSE).' + IR_TREE_TEXT + IR_TREE_WHAT['pins'] + '.',
+        functions=[IR_TREE_FUNCS, '_OOBTree.so: PER_USE/PER_UNUSE/PER_ALLOW_DEACTIVATION bracketing in _BTree_get, _BTree_set, BTree_findRangeEnd, '
                    'BTree_rangeSearch, BTree_maxminKey, _bucket_get/_bucket_set, Bucket_maxminKey, BTreeItems_seek, PreviousBucket, '
                    'BTree_length_or_nonzero, BTree__p_deactivate, bucket__p_deactivate, _BTree_clear, _bucket_clear', 'BTrees._base (no pinning; '
                    'relies on persistent reloading)'],
@@ -1276,7 +1360,8 @@ PROPS = {
         assumptions=COMMON_ASSUME + ['schedules up to the stated pattern length; single thread'],
     ),
     'C16': dict(
-        families=['OO'],
+        families=['OO', 'II', 'QQ'],
+        families_thorough=['OO', 'II', 'UU', 'LL', 'QQ'],
         asan=True,
         gen=lambda tier, seed: ref_obligations('C16', tier, seed),
         explanation='Compiled OO containers are built from catalogue shapes (loaded through __setstate__ and grown through the API) '
@@ -1286,8 +1371,8 @@ PROPS = {
                     'capture/copy/__setstate__/conflict merge/_check) the reference count of every key and value object must '
                     'exceed its baseline by exactly the number of leaf and separator slots holding it (counted from the state '
                     'graph); read-only calls must leave every node\'s reference count unchanged; after the container is destroyed '
-                    'every count is back at its baseline. Over-releases that kill the interpreter are replayed via the decision journal.',
-        functions=['_OOBTree.so: INCREF/DECREF pairing in _bucket_set, bucket_split, BTree_grow, BTree_split, _BTree_set (separator '
+                    'every count is back at its baseline. Over-releases that kill the interpreter are replayed via the decision journal.' + IR_TREE_TEXT + IR_TREE_WHAT['refs'] + '.',
+        functions=[IR_TREE_FUNCS, '_OOBTree.so: INCREF/DECREF pairing in _bucket_set, bucket_split, BTree_grow, BTree_split, _BTree_set (separator '
                    'ownership), _bucket_clear, _BTree_clear, BTree_rangeSearch, newBTreeItems, BTreeItems_*, set_operation, '
                    'finiSetIteration, bucket_merge, bucket_getstate/_setstate, BTree_getstate/_setstate, deallocators'],
         assumptions=COMMON_ASSUME + ['memory bounds are observed only through crashes / reference-count drift here (no sanitizer build '
